@@ -116,16 +116,20 @@ Qed.
 
 (* ---- x/ovm ---------------------------------------------------------------------------------------------------------------------------- *)
 (* MajorityCount = ceil(n x 0.6667), for every vault size up to 1000 (the vault holds 4 or 5 keys) *)
-Lemma gen_MajorityCount : forall n, 0 <= n <= 1000 -> K_KeyVault_MajorityCount {| G_KeyVault_PublicKeys := n |} = majority_count n.
+Definition kv_of (keys : list Z) : G_KeyVault := {| G_KeyVault_PublicKeys := keys |}.
+Lemma gen_MajorityCount_len keys keys' : length keys = length keys' -> K_KeyVault_MajorityCount (kv_of keys) = K_KeyVault_MajorityCount (kv_of keys').
+Proof. intros H. unfold K_KeyVault_MajorityCount, kv_of, klen. cbn [G_KeyVault_PublicKeys]. rewrite H. reflexivity. Qed.
+Lemma gen_MajorityCount : forall keys, zlen keys <= 1000 -> K_KeyVault_MajorityCount (kv_of keys) = majority_count (zlen keys).
 Proof.
-  assert (H : forallb (fun i => K_KeyVault_MajorityCount {| G_KeyVault_PublicKeys := Z.of_nat i |} =? majority_count (Z.of_nat i)) (seq 0 1001) = true)
+  assert (H : forallb (fun i => K_KeyVault_MajorityCount (kv_of (List.repeat 0 i)) =? majority_count (Z.of_nat i)) (seq 0 1001) = true)
     by (vm_compute; reflexivity).
-  intros n Hn. rewrite forallb_forall in H. specialize (H (Z.to_nat n)). rewrite Z2Nat.id in H by lia.
+  intros keys Hn. unfold zlen in *. rewrite forallb_forall in H. specialize (H (length keys)).
+  rewrite (gen_MajorityCount_len keys (List.repeat 0 (length keys))) by (rewrite repeat_length; reflexivity).
   apply Z.eqb_eq. apply H. apply in_seq. lia.
 Qed.
 
 Definition gprop_of (p : proposal) : G_PublicKeysChangeProposal :=
-  {| G_PublicKeysChangeProposal_Id := pp_id p; G_PublicKeysChangeProposal_Creator := pp_creator p; G_PublicKeysChangeProposal_Votes := zlen (pp_votes p);
+  {| G_PublicKeysChangeProposal_Id := pp_id p; G_PublicKeysChangeProposal_Creator := pp_creator p; G_PublicKeysChangeProposal_Votes := map (fun v => {| G_Vote_PublicKey := fst v; G_Vote_Vote := snd v |}) (pp_votes p);
      G_PublicKeysChangeProposal_StartTS := pp_start p; G_PublicKeysChangeProposal_Result := pp_result p; G_PublicKeysChangeProposal_ResultMeta := 0;
      G_PublicKeysChangeProposal_FinishTS := pp_finish p; G_PublicKeysChangeProposal_Status := pp_status p |}.
 (* the expiry test of ovm_finish *)
@@ -183,8 +187,8 @@ Qed.
 
 (* ---- x/market/types/market.go, x/bet/types/bet.go, LockedBalance.Validate, ValidateWithdraw ------------------------------------------- *)
 Definition gm_of (mk : market) : G_Market :=
-  {| G_Market_UID := k_uid mk; G_Market_StartTS := k_start mk; G_Market_EndTS := k_end mk; G_Market_Odds := zlen (k_odds mk);
-     G_Market_WinnerOddsUIDs := zlen (k_winners mk); G_Market_Status := k_status mk; G_Market_ResolutionTS := k_rts mk;
+  {| G_Market_UID := k_uid mk; G_Market_StartTS := k_start mk; G_Market_EndTS := k_end mk; G_Market_Odds := map (fun o => {| G_Odds_UID := o; G_Odds_Meta := 0 |}) (k_odds mk);
+     G_Market_WinnerOddsUIDs := k_winners mk; G_Market_Status := k_status mk; G_Market_ResolutionTS := k_rts mk;
      G_Market_Creator := k_creator mk; G_Market_Meta := 0; G_Market_BookUID := k_uid mk |}.
 
 Lemma gen_market_update_allowed mk : K_Market_IsUpdateAllowed (gm_of mk) = status_ai (k_status mk).
@@ -217,3 +221,102 @@ Proof.
   unfold K_OrderBookParticipation_ValidateWithdraw. cbn [gp_of G_OrderBookParticipation_IsSettled G_OrderBookParticipation_ParticipantAddress].
   destruct (p_settled p); [reflexivity|]. destruct (p_owner p =? depositor); reflexivity.
 Qed.
+
+(* ---- kernels with range loops (generated as folds carrying the assigned variables and a "broke out" flag) ------------------------------- *)
+(* proposal.go DecideResult: the vote count and the comparison with the majority *)
+Lemma triple_eq (a b a' b' : Z) (c : bool) : a = a' -> b = b' -> (a, b, c) = (a', b', c).
+Proof. intros -> ->. reflexivity. Qed.
+Lemma decide_fold votes : forall y n,
+  kfold (y, n, false) (map (fun v => {| G_Vote_PublicKey := fst v; G_Vote_Vote := snd v |}) votes)
+    (fun '(g_yesCount, g_noCount, g__brk) g_v => if g__brk : bool then (g_yesCount, g_noCount, true) else
+       (if (G_Vote_Vote g_v) =? 2 then let g_yesCount := g_yesCount + 1 in (g_yesCount, g_noCount, false)
+        else (if (G_Vote_Vote g_v) =? 1 then let g_noCount := g_noCount + 1 in (g_yesCount, g_noCount, false) else (g_yesCount, g_noCount, false))))
+  = (y + count_votes VOTE_YES votes, n + count_votes VOTE_NO votes, false).
+Proof.
+  unfold kfold, count_votes, VOTE_YES, VOTE_NO, zlen. induction votes as [|[k v] r IH]; intros y n; cbn [map fold_left filter snd fst G_Vote_Vote length].
+  - apply triple_eq; lia.
+  - destruct (v =? 2) eqn:E2.
+    + apply Z.eqb_eq in E2. subst v. cbn [Z.eqb Pos.eqb]. rewrite IH. cbn [length]. apply triple_eq; lia.
+    + destruct (v =? 1) eqn:E1; rewrite IH; cbn [length]; apply triple_eq; lia.
+Qed.
+Lemma gen_DecideResult p keys : zlen keys <= 1000 -> K_PublicKeysChangeProposal_DecideResult (gprop_of p) (kv_of keys) = decide p (zlen keys).
+Proof.
+  intros Hk. unfold K_PublicKeysChangeProposal_DecideResult, decide. cbn [gprop_of G_PublicKeysChangeProposal_Votes].
+  rewrite decide_fold. rewrite gen_MajorityCount by exact Hk. cbn [Z.add]. unfold PR_REJECTED, PR_APPROVED.
+  destruct (majority_count (zlen keys) <=? count_votes VOTE_NO (pp_votes p)); [reflexivity|].
+  destruct (majority_count (zlen keys) <=? count_votes VOTE_YES (pp_votes p)); reflexivity.
+Qed.
+
+(* market.go HasOdds: a return inside the loop *)
+Lemma has_odds_fold o odds : forall r,
+  kfold (r, true) (map (fun o => {| G_Odds_UID := o; G_Odds_Meta := 0 |}) odds)
+    (fun '(g__ret, g__brk) g_o => if g__brk : bool then (g__ret, true) else
+      (if o =? G_Odds_UID g_o then let g__ret := Some true in (g__ret, true) else (g__ret, false))) = (r, true).
+Proof. unfold kfold. induction odds as [|x l IH]; intros r; cbn [map fold_left]; [reflexivity|apply IH]. Qed.
+Lemma gen_HasOdds mk o : K_Market_HasOdds (gm_of mk) o = zmem o (k_odds mk).
+Proof.
+  unfold K_Market_HasOdds, zmem. cbn [gm_of G_Market_Odds]. unfold kfold.
+  induction (k_odds mk) as [|x l IH]; cbn [map fold_left existsb G_Odds_UID]; [reflexivity|].
+  destruct (o =? x).
+  - pose proof (has_odds_fold o l (Some true)) as F. unfold kfold in F. rewrite F. reflexivity.
+  - exact IH.
+Qed.
+
+(* bet.go SetResult: the membership loop with break; the status / result written *)
+Lemma set_result_fold o ws : forall e,
+  kfold (e, true) ws (fun '(g_exist, g__brk) g_wid => if g__brk : bool then (g_exist, true) else
+      (if g_wid =? o then let g_exist := true in (g_exist, true) else (g_exist, false))) = (e, true).
+Proof. unfold kfold. induction ws as [|x l IH]; intros e; cbn [fold_left]; [reflexivity|apply IH]. Qed.
+Lemma set_result_fold2 o ws :
+  fst (kfold (false, false) ws (fun '(g_exist, g__brk) g_wid => if g__brk : bool then (g_exist, true) else
+      (if g_wid =? o then let g_exist := true in (g_exist, true) else (g_exist, false)))) = zmem o ws.
+Proof.
+  unfold zmem. pose proof (set_result_fold o) as S. unfold kfold in *. induction ws as [|x l IH]; cbn [fold_left existsb]; [reflexivity|].
+  rewrite (Z.eqb_sym o x). destruct (x =? o); [rewrite S; reflexivity|exact IH].
+Qed.
+Definition gb_of (b : bet) : G_Bet :=
+  {| G_Bet_UID := b_uid b; G_Bet_MarketUID := b_mkt b; G_Bet_OddsUID := b_odds b; G_Bet_OddsValue := b_oddsval b; G_Bet_Amount := b_amount b;
+     G_Bet_Fee := b_fee b; G_Bet_Status := b_status b; G_Bet_Result := b_result b; G_Bet_Creator := b_creator b; G_Bet_CreatedAt := b_created b;
+     G_Bet_SettlementHeight := b_sheight b; G_Bet_MaxLossMultiplier := b_mult b; G_Bet_BetFulfillment := zlen (b_parts b) |}.
+(* settle_bet: "not declared => error", then won iff the bet's outcome is among the market's winners *)
+Lemma gen_SetResult b mk :
+  K_Bet_SetResult (gb_of b) (gm_of mk) =
+  if negb (k_status mk =? MK_DECLARED) then None
+  else Some (gb_of (bet_with b BS_DECLARED (if zmem (b_odds b) (k_winners mk) then BR_WON else BR_LOST) (b_sheight b))).
+Proof.
+  unfold K_Bet_SetResult, MK_DECLARED. cbn [gm_of G_Market_Status G_Market_WinnerOddsUIDs gb_of G_Bet_OddsUID].
+  destruct (negb (k_status mk =? 5)); [reflexivity|].
+  pose proof (set_result_fold2 (b_odds b) (k_winners mk)) as F.
+  destruct (kfold (false, false) (k_winners mk) _) as [e brk]. cbn [fst] in F. subst e.
+  destruct (zmem (b_odds b) (k_winners mk)); reflexivity.
+Qed.
+
+(* ticket.go ValidateWinnerOdds: nested loops; the guard of market_resolve *)
+Lemma vwo_inner w odds : forall v,
+  kfold (v, false) (map (fun o => {| G_Odds_UID := o; G_Odds_Meta := 0 |}) odds)
+    (fun '(g_validWinnerOdds, g__brk) g_o => if g__brk : bool then (g_validWinnerOdds, true) else
+      (if G_Odds_UID g_o =? w then let g_validWinnerOdds := true in (g_validWinnerOdds, false) else (g_validWinnerOdds, false)))
+  = (v || zmem w odds, false).
+Proof.
+  unfold kfold, zmem. induction odds as [|x l IH]; intros v; cbn [map fold_left existsb G_Odds_UID]; [rewrite orb_false_r; reflexivity|].
+  rewrite (Z.eqb_sym w x). destruct (x =? w); rewrite IH; [cbn [orb]; rewrite orb_true_r; reflexivity|cbn [orb]; reflexivity].
+Qed.
+Lemma gen_ValidateWinnerOdds uid rts winners status mk :
+  K_MarketResolutionTicketPayload_ValidateWinnerOdds
+    {| G_MarketResolutionTicketPayload_UID := uid; G_MarketResolutionTicketPayload_ResolutionTS := rts;
+       G_MarketResolutionTicketPayload_WinnerOddsUIDs := winners; G_MarketResolutionTicketPayload_Status := status |} (gm_of mk)
+  = negb ((status =? MK_DECLARED) && ((rts <? k_start mk) || negb (forallb (fun w => zmem w (k_odds mk)) winners))).
+Proof.
+  unfold K_MarketResolutionTicketPayload_ValidateWinnerOdds, MK_DECLARED.
+  cbn [G_MarketResolutionTicketPayload_Status G_MarketResolutionTicketPayload_ResolutionTS G_MarketResolutionTicketPayload_WinnerOddsUIDs gm_of G_Market_StartTS G_Market_Odds].
+  destruct (status =? 5); [|reflexivity]. cbn [andb]. destruct (rts <? k_start mk); [reflexivity|]. cbn [orb].
+  match goal with |- (let '(_, _) := kfold _ _ ?f in _) = _ => set (F := f) end.
+  assert (Hstop : forall ws v, fold_left F ws (v, true) = (v, true)) by (induction ws as [|x l IH]; intros v; cbn [fold_left]; [reflexivity|apply IH]).
+  assert (Hrun : forall ws, fst (fold_left F ws (true, false)) = forallb (fun w => zmem w (k_odds mk)) ws).
+  { induction ws as [|x l IH]; cbn [fold_left forallb]; [reflexivity|].
+    unfold F at 2. cbv beta iota. rewrite vwo_inner. cbn [orb].
+    destruct (zmem x (k_odds mk)); cbn [negb andb]; [exact IH|rewrite Hstop; reflexivity]. }
+  specialize (Hrun winners). unfold kfold at 1. destruct (fold_left F winners (true, false)) as [v brk]. cbn [fst] in Hrun. subst v.
+  destruct (forallb _ winners); reflexivity.
+Qed.
+
